@@ -173,8 +173,11 @@ def get_normalized_hostname(url, normalize_amp=True, infer_redirection=True):
     if isinstance(url, SplitResult):
         splitted = url
     else:
+        # NOTE: same cleaning as in `normalize_url`
+        url = CONTROL_CHARS_RE.sub("", url).strip()
+
         try:
-            splitted = urlsplit(ensure_protocol(url.strip()))
+            splitted = urlsplit(ensure_protocol(url))
         except ValueError:
             return None
 
